@@ -113,6 +113,7 @@ fn err_class(diags: &str) -> String {
         ("no enum const", "unknown-name"), ("invalid script", "unknown-name"), ("no object named", "unknown-name"),
         ("cycle in const definition", "cycle"), ("depends on its own value", "cycle"), ("ambiguous value for", "ambiguous-value"), ("ambiguous enum const", "ambiguous-enum"),
         ("orphaned ANM script", "orphan-script"), ("empty ANM script", "empty-anm"),
+        ("script number too large", "script-number-too-large"), ("too many objects or quads", "std-too-many"),
         ("negative timeline", "tl-negative"), ("missing timeline", "tl-missing"), ("duplicate timeline", "tl-duplicate"), ("too many timelines", "tl-too-many"),
     ];
     for (pat, cls) in table { if first.contains(pat) { return cls.to_string(); } }
@@ -501,7 +502,17 @@ fn eval_std_many(case: &Sexp) -> Sexp {
     for k in &named { text.push_str(&format!("        obj{k} {{pos: [0.0, 0.0, 0.0]}},\n")); }
     text.push_str("    ],\n}\n\nscript main {\n}\n");
     let out = tc::compile(Format::Std, game, &[], text.as_bytes());
-    let bytes = match &out.value { Some(b) => b.clone(), None => return rejected(&out, &format!("{n} objects")) };
+    let bytes = match &out.value {
+        Some(b) => b.clone(),
+        None => {
+            let r = rejected(&out, &format!("{n} objects"));
+            if r.head() == Some("fail") { return r; }
+            let cls = r.args()[0].as_atom().to_string();
+            // index 0xffff is the end-of-list marker: at most 65535 objects can be described
+            if n > 65535 && cls == "std-too-many" { return Sexp::app("pass", vec![Sexp::atom("rejected"), Sexp::int(n as i64)]); }
+            return fail("std-file-rejected-unexpectedly", format!("{game}: {n} objects: {cls}"));
+        },
+    };
     // the file was accepted: its 16-bit fields must describe what was asked
     let inst_off = layout::u32_at(&bytes, 4).unwrap_or(0) as usize;
     for (k, want) in named.iter().enumerate() {
@@ -538,7 +549,7 @@ fn gen_anm(rng: &mut Rng, game: Game, flavor: AnmFlavor) -> Sexp {
     let mut known: Vec<Option<i64>> = vec![];         // value of each sprite if the generator can tell
     let mut next: Option<i64> = Some(0);
     let mut fresh = 0usize;
-    let nscripts_total = rng.below(6) + if flavor == AnmFlavor::DupScript { 2 } else { 0 };
+    let nscripts_total = rng.below(6) + if flavor == AnmFlavor::DupScript { 2 } else if flavor == AnmFlavor::BigScriptNumber { 1 } else { 0 };
     let script_names: Vec<String> = (0..nscripts_total).map(|i| format!("sc{i}")).collect();
     let nconsts = if matches!(flavor, AnmFlavor::Valid | AnmFlavor::AmbiguousEnum) { rng.below(3) } else { 0 };
     // a user const may have the name of a sprite (it then shadows the sprite in unqualified positions)
@@ -632,9 +643,10 @@ fn gen_anm(rng: &mut Rng, game: Game, flavor: AnmFlavor) -> Sexp {
         (rng.pick(&pool).clone(), qual)
     };
     let mut script_items: Vec<Sexp> = vec![];
+    let big_at = if script_names.is_empty() { 0 } else { rng.below(script_names.len()) };
     for (i, name) in script_names.iter().enumerate() {
         let number = match flavor {
-            AnmFlavor::BigScriptNumber if i == 0 => Sexp::int(2147483647i64),
+            AnmFlavor::BigScriptNumber if i == big_at => Sexp::int(2147483647i64),
             _ => if rng.chance(1, 4) { Sexp::int(*rng.pick(&[0i64, 1, 2, 5, 5, 10, 3, -1, 100, 7])) } else { none() },
         };
         let mut v = vec![atom(name.clone()), number, Sexp::int(i as i64)];
@@ -846,9 +858,9 @@ impl Prop for C20 {
                 }
             }
         }
-        for _ in 0..3 * scale {
+        for _ in 0..6 * scale {
             let game = *rng.pick(ANM_GAMES);
-            out.push(Case::search(gen_anm(rng, game, AnmFlavor::BigScriptNumber)).tag("anm-script-number-i32-max"));
+            out.push(Case::corr(gen_anm(rng, game, AnmFlavor::BigScriptNumber)).tag("anm-script-number-i32-max"));
         }
         let ecl_flavors = [(EclFlavor::Valid, 8), (EclFlavor::TlMixed, 3), (EclFlavor::Unknown, 2), (EclFlavor::DupSub, 1), (EclFlavor::TlNegative, 1), (EclFlavor::TlGap, 1), (EclFlavor::TlDuplicate, 1), (EclFlavor::TlTooMany, 1)];
         for _ in 0..28 * scale {
@@ -874,8 +886,11 @@ impl Prop for C20 {
             let game = *rng.pick(STD_GAMES);
             out.push(Case::corr(gen_std(rng, game, k % 8 == 6, k % 8 == 7)).tag(if k % 8 == 6 { "std-unknown" } else if k % 8 == 7 { "std-dup-object" } else { "std-valid" }).tag(format!("std-{game}")));
         }
-        // 16-bit object count / object index (one slow case: ~64k objects)
+        // 16-bit object count / object index (slow cases: ~64k objects): one more than fits must be
+        // rejected, the largest file that fits must carry the right indices
         out.push(Case::search(Sexp::app("std-many", vec![atom("th10"), Sexp::int(65537)])).tag("std-more-than-65535-objects"));
+        out.push(Case::search(Sexp::app("std-many", vec![atom("th06"), Sexp::int(65536)])).tag("std-more-than-65535-objects"));
+        out.push(Case::search(Sexp::app("std-many", vec![atom("th10"), Sexp::int(65535)])).tag("std-65535-objects"));
         out.push(Case::search(Sexp::app("std-many", vec![atom("th08"), Sexp::int(300)])).tag("std-300-objects"));
         out
     }
